@@ -103,19 +103,37 @@ func runShared(c *core.Ctx, call callFn, args []cty.Value) (o outcome) {
 	return outcome{ok: true, kind: "value", v: v}
 }
 
-// markedText writes a value out with its marks at every depth (paths and sorted mark sets): two values have the
-// same text iff they carry the same marks at the same places on the same payload text.
+// markedText lists the marks of a value at every depth (path and sorted mark set; the payload itself is not C04's
+// subject): two values of one payload have the same text iff they carry the same marks at the same places.
 func markedText(v cty.Value) string {
 	var sb strings.Builder
 	g := core.Guard(func() {
-		u, pvm := v.UnmarkDeepWithPaths()
-		fmt.Fprintf(&sb, "%#v", u)
+		_, pvm := v.UnmarkDeepWithPaths()
 		lines := make([]string, 0, len(pvm))
 		for _, e := range pvm {
-			lines = append(lines, fmt.Sprintf("%#v=%s", e.Path, marksText(e.Marks)))
+			var ps strings.Builder
+			for _, st := range e.Path {
+				switch t := st.(type) {
+				case cty.GetAttrStep:
+					ps.WriteString("." + t.Name)
+				case cty.IndexStep:
+					k, _ := t.Key.Unmark()
+					switch {
+					case !k.IsKnown() || k.IsNull():
+						ps.WriteString("[?]")
+					case k.Type() == cty.String:
+						ps.WriteString("[" + k.AsString() + "]")
+					case k.Type() == cty.Number:
+						ps.WriteString("[" + k.AsBigFloat().Text('g', 20) + "]")
+					default:
+						ps.WriteString("[*]")
+					}
+				}
+			}
+			lines = append(lines, ps.String()+"="+marksText(e.Marks))
 		}
 		sort.Strings(lines)
-		sb.WriteString(" marks{" + strings.Join(lines, "; ") + "}")
+		sb.WriteString("marks{" + strings.Join(lines, "; ") + "}")
 	})
 	if g.Panicked {
 		return "unprintable: " + g.PanicMsg
@@ -295,14 +313,15 @@ func checkPair(c *core.Ctx, idx int64, p *pair) {
 
 	// what the marked inputs look like before anything is called (clause 6)
 	pre := make([]string, len(p.marked))
-	if len(all) > 0 {
+	hist := len(all) > 0 && idx%2 == 0 // clause 6 runs on every second case
+	if hist {
 		for k, v := range p.marked {
 			pre[k] = markedText(v)
 		}
 	}
 	o0 := run(c, p.call, p.unmarked)
 	o1 := run(c, p.call, p.marked)
-	if len(all) > 0 {
+	if hist {
 		for k := range p.marked {
 			if now := markedText(p.marked[k]); now != pre[k] {
 				c.Violate(p.site, "an input value carries other marks after the call", "input value", desc(),
@@ -456,7 +475,7 @@ func checkPair(c *core.Ctx, idx int64, p *pair) {
 	// twice: afterwards the slice still holds the same marked values (a mark stripped from the caller's slice is a
 	// mark lost on the second call; a mark that appeared on an input value is a mark no input carried), and the
 	// second result carries the marks the first one carried.
-	if len(all) > 0 {
+	if hist {
 		c.Count("clause:inputs-untouched-and-repeatable")
 		shared := append([]cty.Value(nil), p.marked...)
 		a := runShared(c, p.call, shared)
